@@ -411,7 +411,7 @@ func (c *Collection) getRawXattrs(txn *sql.Tx, key string) ([]byte, error) {
 // get doc's raw body and an xattr.
 func (c *Collection) getRawWithXattrs(key string, xattrKeys []string) (sgbucket.BucketDocument, error) {
 	var revSeqNo int64
-	row := c.db().QueryRow(`SELECT value, cas, xattrs, tombstone, revSeqNo FROM documents WHERE collection=?1 AND key=?2`, c.id, key)
+	row := c.db().QueryRow(`SELECT value, cas, xattrs, value IS NULL, revSeqNo FROM documents WHERE collection=?1 AND key=?2`, c.id, key)
 	rawDoc := sgbucket.BucketDocument{
 		Xattrs: make(map[string][]byte, len(xattrKeys)),
 	}
@@ -521,7 +521,7 @@ func (c *Collection) writeWithXattrs(
 		}
 		var wasTombstone int
 		// First read the existing doc, if any:
-		row := txn.QueryRow(`SELECT value, isJSON, cas, exp, xattrs, tombstone, revSeqNo FROM documents WHERE collection=?1 AND key=?2`,
+		row := txn.QueryRow(`SELECT value, isJSON, cas, exp, xattrs, value IS NULL, revSeqNo FROM documents WHERE collection=?1 AND key=?2`,
 			c.id, key)
 		var prevCas CAS
 		if err := scan(row, &e.value, &e.isJSON, &prevCas, &e.exp, &e.xattrs, &wasTombstone, &e.revSeqNo); err == nil {
